@@ -114,6 +114,33 @@ def run_unit(unit, use_cache=True, with_canary=True):
     return res
 
 
+
+def _run_canary(unit, demote):
+    """second run with an extra `proof fn ... ensures false {}`: it must FAIL, otherwise the assumed contracts are contradictory"""
+    canary_ok = None
+    ctext, _, _ = assemble(unit, canary=True, demote=demote)
+    cp = os.path.join(WORK, unit, unit.replace("-", "_") + "_canary.rs")
+    with open(cp, "w") as f:
+        f.write(ctext)
+    ccmd = ["verus", cp, "--output-json", "--error-format=json", "--verify-function", "verif_canary_must_fail_", "--verify-root"]
+    try:
+        p = subprocess.run(ccmd, capture_output=True, text=True, timeout=600, cwd=os.path.dirname(cp))
+        try:
+            cj = json.loads(p.stdout)
+            vr = cj.get("verification-results", {})
+            if vr.get("errors", 0) >= 1 and vr.get("verified", 0) == 0 and not vr.get("encountered-vir-error"):
+                canary_ok = True
+            elif vr.get("errors", 0) == 0 and vr.get("verified", 0) >= 1:
+                canary_ok = False
+            else:
+                canary_ok = None
+        except Exception:
+            canary_ok = None
+    except subprocess.TimeoutExpired:
+        canary_ok = None
+    return canary_ok
+
+
 def _run_unit(unit, use_cache, with_canary, demote):
     res = UnitResult(unit)
     res.demoted = {}
@@ -150,28 +177,7 @@ def _run_unit(unit, use_cache, with_canary, demote):
             cached = None
     if cached is None:
         cmd, out, err, rc, wall = _run(path, meta.get("rlimit"))
-        canary_ok = None
-        if with_canary:
-            ctext, _, _ = assemble(unit, canary=True, demote=demote)
-            cp = os.path.join(WORK, unit, unit.replace("-", "_") + "_canary.rs")
-            # canary file: same prelude, only the canary proof fn matters -> verify just that function
-            with open(cp, "w") as f:
-                f.write(ctext)
-            ccmd = ["verus", cp, "--output-json", "--error-format=json", "--verify-function", "verif_canary_must_fail_", "--verify-root"]
-            try:
-                p = subprocess.run(ccmd, capture_output=True, text=True, timeout=600, cwd=os.path.dirname(cp))
-                try:
-                    cj = json.loads(p.stdout)
-                    vr = cj.get("verification-results", {})
-                    canary_ok = (vr.get("errors", 0) >= 1 and vr.get("verified", 0) == 0 and not vr.get("encountered-vir-error"))
-                    if not canary_ok and vr.get("errors", 0) == 0 and vr.get("verified", 0) >= 1:
-                        canary_ok = False
-                    elif not canary_ok:
-                        canary_ok = None   # could not run (compile error) -> decided by the main run's status
-                except Exception:
-                    canary_ok = None
-            except subprocess.TimeoutExpired:
-                canary_ok = None
+        canary_ok = _run_canary(unit, demote) if with_canary else None
         cached = dict(cmd=cmd, out=out, err=err, rc=rc, wall=wall, canary=canary_ok)
         os.makedirs(os.path.dirname(cpath), exist_ok=True)
         with open(cpath, "w") as f:
@@ -179,6 +185,12 @@ def _run_unit(unit, use_cache, with_canary, demote):
         cached["from_cache"] = False
     else:
         cached["from_cache"] = True
+        if with_canary and cached.get("canary") is None:
+            cached["canary"] = _run_canary(unit, demote)
+            fc = cached.pop("from_cache")
+            with open(cpath, "w") as f:
+                json.dump(cached, f)
+            cached["from_cache"] = fc
     res.cmd = " ".join(cached["cmd"])
     res.wall_s = cached["wall"]
     res.canary = cached.get("canary")
